@@ -16,6 +16,7 @@ This module contains various utility classes and functions used
 within the :class:`~.Program` class.
 """
 
+import numbers
 from collections.abc import Sequence
 
 import networkx as nx
@@ -546,6 +547,21 @@ def validate_gate_parameters(compiled, device=None):
         raise CircuitError(
             "Program cannot be matched with the device layout due to incompatible topology."
         ) from e
+
+    # ``match_template`` only binds the named template parameters; the hard-coded
+    # values of the layout have to be matched by the compiled circuit as well
+    def _sorted_ops(prog):
+        return sorted(prog.operations, key=lambda op: (op["op"], tuple(op["modes"])))
+
+    for layout_op, op in zip(_sorted_ops(bb_device), _sorted_ops(compiled)):
+        for x, y in zip(layout_op.get("args", []), op.get("args", [])):
+            if isinstance(x, numbers.Number) and isinstance(y, numbers.Number) and not np.isclose(x, y):
+                raise CircuitError(
+                    "Program cannot be matched with the device layout due to incompatible "
+                    "parameter values: {} has the fixed parameter {}, not {}.".format(
+                        layout_op["op"], x, y
+                    )
+                )
 
     # raises ValueError if parameters are invalid
     device.validate_parameters(**user_parameters)
